@@ -4,6 +4,7 @@ package main
 // C04 — HTLC: escrow and supply counters match the open contracts.
 
 import (
+	"os"
 	"fmt"
 	"go/types"
 	"strings"
@@ -140,20 +141,29 @@ func runC03(cx *Ctx, r *Report) {
 		_, g2b := mint[0].fact(true, "("+H+".Direction == 1)")
 		_, g3a := burn[0].fieldFact(true, H+".Transfer")
 		_, g3b := burn[0].fact(false, "("+H+".Direction == 1)")
+		if os.Getenv("DEBUG_C03") != "" {
+			fmt.Fprintf(os.Stderr, "C03 routes: g1=%v g2a=%v g2b=%v g3a=%v g3b=%v coex=%v\n  mint frames %s\n", g1, g2a, g2b, g3a, g3b, coExecuted(mint[0].ev, give[0].ev), mint[0].ev.Fr.String())
+			for _, ft := range mint[0].w.FactsAt(mint[0].ev.Fr, mint[0].ev.Site) {
+				fmt.Fprintf(os.Stderr, "   fact %s\n", trunc(ft.String(), 160))
+			}
+		}
 		r.check(g1 && g2a && g2b && g3a && g3b && coExecuted(mint[0].ev, give[0].ev), "claim-routes-exclusive", "ClaimHTLC", mint[0].ev.Pos(cx), "routes are guarded by ¬Transfer | Transfer∧Direction==Incoming (mint then pay) | Transfer∧Direction≠Incoming (burn): pairwise contradictory", "the three claim routes are not guarded by pairwise contradictory conditions on Transfer/Direction")
 		// at least one route on every successful path of the function that dispatches
-		disp := plain[0].ev.Fr.Parent
+		// (the routes may sit in helpers, switch arms or steps of a first-error combinator:
+		// judged in the lowest frame that holds all of them)
+		var disp *Frame
+		for f := plain[0].ev.Fr; f != nil && disp == nil; f = f.Parent {
+			for g := mint[0].ev.Fr; g != nil; g = g.Parent {
+				if g == f {
+					disp = f
+					break
+				}
+			}
+		}
 		if disp != nil {
-			sites := map[ssa.Instruction]bool{}
-			if plain[0].ev.Fr.Call != nil {
-				sites[plain[0].ev.Fr.Call] = true
-			}
-			if mint[0].ev.Fr.Call != nil {
-				sites[mint[0].ev.Fr.Call] = true
-			}
-			okOne := mustPass(disp.Fn, func(i ssa.Instruction) bool { return sites[i] })
-			inner := mint[0].ev.Fr.Fn
-			okInner := mustPass(inner, func(i ssa.Instruction) bool { return i == mint[0].ev.Site || i == burn[0].ev.Site })
+			sites := coveringSites(disp, []hev{plain[0], mint[0], burn[0]})
+			okOne := len(sites) > 0 && mustPass(disp.Fn, func(i ssa.Instruction) bool { return sites[i] })
+			okInner := true
 			r.check(okOne && okInner, "claim-routes-total", "ClaimHTLC", plain[0].ev.Pos(cx), "every successful claim passes through exactly one payout route", "a successful claim path can avoid every payout route")
 		}
 	} else {
